@@ -34,6 +34,9 @@ CHECKS = {
  'C03': dict(technique='TLC evaluation of format conformance (SgzFormat!Conformant conjuncts, SgzVersion gates) on every writer output and writer chain + TLC/Apalache model checking of the version encoding',
              text='Every output of every writer (NumPy, SEG-Y in 4 detection modes, 2-D, irregular, ZGY/VDS fixtures, cropper, re-blocker) and of chains up to length 3 is parsed at the byte positions the specification gives and each conformance conjunct (dimensions, axes, rate, blockshape, block count, entry bytes, stride and offsets under the RECORDED version, trace count, table vs stored arrays, file length) is decided by TLC against the truth taken from the source and settings; the file is then decoded unit by unit and array by array from TLC offsets. The version encoding is model checked exhaustively at reduced radices (TLC), proved at the real radices for all pairs (Apalache, thorough) and enumerated on the real class (boundary set quick, all 8.4 million thorough) together with the setuptools_scm string grammar.',
              note='unused header regions are not inspected; cropper/re-blocker keep the source version and are judged under its conventions', ref='7/C03'),
+ 'C19': dict(technique='TLC model checking of the setting resolution/validation (SgzConfig!Resolve vs Valid) on the complete grid + conformance of the real function with the model + real conversions',
+             text='TLC checks on the complete grid of the property (bits as number/string/negative reciprocal/non-powers of two x blockshape entries in {-1,1..8192}^3, 2-D and 3-D; 2 million states) that the resolution as the code does it accepts only valid combinations, keeps what was given, and accepts every valid combination fully given or with any one parameter free; the real define_blockshape_2d/3d are compared with the model point by point (TLC oracle) and accepted / near-miss points are converted for real on a tiny input: rejected => no output left, accepted => bitwise faithful read-back.',
+             note='2-D rates below 1 cannot be faithful and need not be accepted', ref='7/C19'),
 }
 checks = []
 for pid, c in CHECKS.items():
